@@ -19,6 +19,10 @@ def _root_.Cnfgen.Gen.Expr.deps : Expr → List String
   | .or a b => a.deps ++ b.deps
   | .cmp _ a b => a.deps ++ b.deps
   | .ite c t e => c.deps ++ t.deps ++ e.deps
+  | .binop _ a b => a.deps ++ b.deps
+  | .order g => g.deps
+  | .cons h t => h.deps ++ t.deps
+  | .mkgraph _ sp => sp.deps
   | .opaque _ ds => ds
   | _ => []
 
@@ -73,7 +77,15 @@ def positionalOK (s : CliSpec) (o : OptSpec) : Bool :=
   (callTemplates s).all (fun t =>
     mentionCount t o.dest ≥ 1 && directCount t o.dest ≤ 1 && (hasOpaqueArg t || directCount t o.dest == 1))
 
-def positionalsOK (s : CliSpec) : Bool := ((positionals s).filter (·.action != "PHPArgs")).all (positionalOK s)
+/-- a positional of a sub-parser of `compose_two_parsers` reaches the calls made when that sub-parser is
+chosen: some call mentions it, no call is given it twice -/
+def subPositionalOK (s : CliSpec) (o : OptSpec) : Bool :=
+  (callTemplates s).any (fun t => mentionCount t o.dest ≥ 1) &&
+  (callTemplates s).all (fun t => directCount t o.dest ≤ 1)
+
+def positionalsOK (s : CliSpec) : Bool :=
+  ((positionals s).filter (fun o => o.action != "PHPArgs" && o.action != "compose_two_parsers")).all (positionalOK s) &&
+  (s.opts.filter (fun o => o.nested && o.positional)).all (subPositionalOK s)
 
 /-- parameter names of a library function (`*ks` counts as `ks`) -/
 def paramsOf (fn : String) : List String :=
@@ -114,6 +126,11 @@ def specWF (s : CliSpec) : Bool :=
   (s.opts.all (fun o => !o.required || o.positional || (!isFlag o && (s.opts.filter isFlag).all (·.dest != o.dest)))) &&
   -- option strings are not shared
   ((s.opts.flatMap (fun o => if o.positional then [] else o.flags)).Nodup)
+
+/-- no OTHER option of `o`'s mutually exclusive group occurs on the command line -/
+def noRival (s : CliSpec) (o : OptSpec) (argv : List String) : Bool :=
+  o.group == "" ||
+  argv.all (fun t => match optOf s t with | some o' => o'.group != o.group || o' == o | none => true)
 
 /-! ### classes of sub-commands for the generic theorems -/
 
